@@ -22,6 +22,28 @@ TOL = 1e-9
 @st.composite
 def histories(draw):
     from ..gen import schedules
+    if draw(st.integers(0, 4)) == 0:
+        # sustained overload: many saturated streams with equal reads (the
+        # class in which a limiter that admits too much shows as a rate
+        # violation beyond the burst allowance)
+        max_bw = draw(st.sampled_from([10, 100, 1000]))
+        size = draw(st.sampled_from([16, 100, 1000]))
+        f = draw(st.sampled_from([0.0, 0.0, 0.3, 0.5, 0.7]))
+        if f == 0.0:
+            n = draw(st.integers(3, 8))
+            k = draw(st.integers(8, 14))
+        else:
+            # steady demand at 1/f times the limit from one or two streams,
+            # long enough for the excess to outgrow the burst allowance
+            n = draw(st.integers(1, 2))
+            k = draw(st.integers(30, 60))
+        think = f * size / max_bw
+        return {'kind': 'des', 'max_bw': max_bw,
+                'threshold': draw(st.sampled_from([1, 4, 16])),
+                'tick': draw(st.sampled_from([0.0, 1e-6])),
+                'streams': [[[size, think]] * k for _ in range(n)],
+                'late': [], 'abandon': [], 'saturated': f == 0.0,
+                'sched': draw(schedules(40))}
     max_bw = draw(st.sampled_from([1, 10, 100, 100, 1000, 4096]))
     nstreams = draw(st.integers(1, 8))
     threshold = draw(st.sampled_from([1, 1, 4, 16, 64, 256]))
@@ -182,12 +204,14 @@ def run_history(case):
                                            bw.TimeUtils(), bytes_threshold=1)
             cur_stream[sched.cur.tid] = 'probe'
             idle = 100.0 + 1000.0 * 1000 / max_bw
-            for k in range(24):
+            for k in range(200):
                 sched.sleep(idle)
                 state[('nsleep', 'probe')] = 0
                 state[('amt', 'probe')] = 1
                 ps.read(1)
                 probes.append(state[('nsleep', 'probe')])
+                if len(probes) >= 3 and not any(probes[-3:]):
+                    break     # recovered
 
     saved_time = bw.time
     with patched(sched):
@@ -209,9 +233,9 @@ def run_history(case):
     abandoned = {i for i in exc_of}
     if probes and all(p > 0 for p in probes[-3:]):
         return (('des:permanently-throttled',
-                 f'after all streams finished, 24 one-byte reads separated '
-                 f'by long idle periods were still being delayed '
-                 f'({probes}): throttling never recovers'), info)
+                 f'after all streams finished, {len(probes)} one-byte reads '
+                 f'separated by long idle periods were all still being '
+                 f'delayed: throttling never recovers'), info)
     sleeps[:] = [x for x in sleeps if x[1] != 'probe']
     # (v) every non-abandoned stream finishes
     for i in range(nstreams):
